@@ -31,6 +31,8 @@ PROPS = {
         "assumptions": ["std's integer parsing/formatting is re-modelled (Model/Codec.v), not verified",
                         "absence of panics is checked by catch_unwind on every generated input, not proved"],
     },
+    "C01": sysprop(["C01"], ["default", "exit", "local"], 250, 4000, GEN_RULE),
+    "C07": sysprop(["C07"], ["mixed", "overload", "adapters", "local", "exit"], 200, 3000, GEN_RULE, release_too=True),
     "C02": sysprop(["C02"], ["mixed", "default", "local", "adapters"], 250, 4000, GEN_RULE),
     "C05": sysprop(["C05"], ["mixed", "default", "cancelable", "local"], 250, 4000, GEN_RULE),
     "C06": sysprop(["C06"], ["default", "cancelable", "mixed", "local"], 250, 4000, GEN_RULE),
